@@ -6,7 +6,7 @@ import NeoModel.Proofs.AddBlockHist
 namespace NeoModel.AddBlock
 variable {L : Type}
 
-/-! ### concrete objects for the non-vacuity examples and the negation witnesses -/
+/-! ### concrete objects for the non-vacuity examples and the replays of the fixed defects -/
 
 /-- a small concrete environment for the non-vacuity examples: witness `w` signs hash `h` for
 address `a` iff `w = h + a`; Merkle = sum of ids; a tx is valid iff its witness equals its id. -/
